@@ -166,7 +166,7 @@ def spill_roles(repo, cname):
     roles = {}
     for role, limit in (("total", None), ("counter", 0)):
         o = _pack_obj(repo, cname, limit, None, _raw=True)
-        before = {k: v for k, v in o.fields.items() if isinstance(v, int) and not isinstance(v, bool)}
+        before = _int_paths(o)
         od = Order()
         od.name(0, "zero", 0)
         od.name(Sym("size"), "size", 2)
@@ -175,11 +175,11 @@ def spill_roles(repo, cname):
             it.run(pk, [Sym("payload")], self_obj=o)
         except (Raised, Undecided, AnalysisError) as exc:
             raise AnalysisError(f"{cname}._pack outside vocabulary while looking for its accounting attributes: {exc}") from exc
-        changed = [k for k, v in before.items() if o.fields.get(k) != v]
+        changed = [k for k, v in before.items() if role_get(o, k) != v]
         if role == "total":
-            changed = [k for k in changed if not isinstance(o.fields[k], int)]
+            changed = [k for k in changed if not isinstance(role_get(o, k), int)]
         else:
-            changed = [k for k in changed if o.fields[k] == before[k] + 1]
+            changed = [k for k in changed if role_get(o, k) == before[k] + 1]
         if len(changed) != 1:
             if role == "counter" and not changed:
                 roles[role] = None  # no number counts the spills (the file-name rules decide whether names stay unique)
@@ -188,6 +188,35 @@ def spill_roles(repo, cname):
         roles[role] = changed[0]
     cache[cname] = roles
     return roles
+
+
+def _int_paths(o, depth=0):
+    """{path: value} of the integer-valued state of an object: its own attributes and those of the private helper objects its
+    constructor created (a role is a path of attribute names, e.g. ('_mem', 'in_ram'))."""
+    out = {}
+    for k, v in o.fields.items():
+        if isinstance(v, int) and not isinstance(v, bool):
+            out[(k,)] = v
+        elif isinstance(v, Obj) and v.cls is not None and v.cls.name.startswith("_") and depth < 2:
+            for p2, v2 in _int_paths(v, depth + 1).items():
+                out[(k,) + p2] = v2
+    return out
+
+
+def role_get(o, path, default=None):
+    if path is None:
+        return default
+    path = (path,) if isinstance(path, str) else path
+    for k in path[:-1]:
+        o = o.fields[k]
+    return o.fields.get(path[-1], default)
+
+
+def role_set(o, path, value):
+    path = (path,) if isinstance(path, str) else path
+    for k in path[:-1]:
+        o = o.fields[k]
+    o.fields[path[-1]] = value
 
 
 def _pack_obj(repo, cname, limit, total, _raw=False):
@@ -207,20 +236,20 @@ def _pack_obj(repo, cname, limit, total, _raw=False):
     if not _raw:
         roles = spill_roles(repo, cname)
         if total is not None:
-            o.fields[roles["total"]] = total
+            role_set(o, roles["total"], total)
         if roles["counter"] is not None:
-            o.fields[roles["counter"]] = Sym("counter0")
+            role_set(o, roles["counter"], Sym("counter0"))
     return o
 
 
 def _total(repo, o):
-    return o.fields[spill_roles(repo, o.cls.name)["total"]]
+    return role_get(o, spill_roles(repo, o.cls.name)["total"])
 
 
 def _set_counter(repo, o, v):
     k = spill_roles(repo, o.cls.name)["counter"]
     if k is not None:
-        o.fields[k] = v
+        role_set(o, k, v)
 
 
 def _packers(repo):
